@@ -20,6 +20,10 @@ CHECKS = {
                 technique="TLC on PfxTable.tla (mirror rebuilt from callbacks; reload protocol copy/swap/notify_diff) + trace validation of the callback bag of every operation",
                 text="TLC checks mirror = table at every public-operation return for all histories incl. the reload protocol (net difference only); every operation of the real table logs the callbacks it emitted and TLC requires exactly the predicted bag (none missing, extra or repeated) and mirror equality.",
                 note="as C01; histories driven by cache responses are covered by the protocol checks (C03)"),
+    "C10": dict(engine="tables", cat="model_checking", ref="5/C10",
+                technique="TLC on SpkiTable.tla (set semantics, both lookups, callback mirror, reload protocol) + trace validation of the real spki_table against SpkiTableTrace.tla",
+                text="TLC checks the key-table contract exhaustively over a 9-entry universe incl. the copy/swap/notify-diff protocol; the real table is bound by replaying TLC-generated histories with a full lookup sweep after every step and by seeded histories whose sizes walk across the linear-hash resize steps with AS numbers colliding in the hash, every lookup result (as a bag) and every callback bag recomputed by TLC.",
+                note="bounded constants on the model side; finite seeded samples on the code side; NDEBUG+ASan build; trusts TLC and the harness's logging"),
 }
 
 NA_REASON = "check not built yet in this round (planned: see DESIGN.md section 5); no claim is made"
@@ -53,6 +57,7 @@ def main():
             "enable": "checks compile /repo's working-tree sources directly with clang -DRTRLIB_VERIF (lib/vlib.py build_lib); no hook exists in rtrlib at present, the seams used are public function pointers and link-time --wrap",
             "baseline_off_cmd": "bin/baseline",
             "source_commits": [],
+            
             "add_only": True,
         },
         "engines": [{"name": k, "path": "lib/checks/%s.py" % k, "serves_properties": sorted(v),
